@@ -68,8 +68,12 @@ class ServerBase(object):
         try:
             if in_string_charset is not None:
                 try:
-                    codecs.lookup(in_string_charset)
-                except LookupError:
+                    # bytes-to-bytes codecs (hex, zlib, ..) are not charsets
+                    if not getattr(codecs.lookup(in_string_charset),
+                                                   '_is_text_encoding', True):
+                        raise LookupError(in_string_charset)
+
+                except (LookupError, ValueError, TypeError):
                     raise Fault('Client.UnknownCharset', "Unknown request "
                                       "charset %r" % (in_string_charset,))
 
